@@ -1,6 +1,6 @@
 SPECIFICATION Spec
 CONSTANTS
-  Pool = {"a", "b", "c", "d"}
+  Pool = {"a", "b", "c", "d", "root"}
   MaxItems = 4
   MaxTargets = 1
   MaxOdd = 0
